@@ -200,7 +200,9 @@ impl<'a> Cur<'a> {
     }
 }
 
-fn parse_entries(c: &mut Cur<'_>, version: u32, n: usize, prev: &mut Vec<u8>, out: &mut Vec<Ent>) -> Result<(), String> {
+/// `prev`: the previous path for v4 prefix compression; `None` at the start of a block, where git's reader decodes the strip
+/// count but ignores it (the writer poisons the previous name so the full path is always stored).
+fn parse_entries(c: &mut Cur<'_>, version: u32, n: usize, prev: &mut Option<Vec<u8>>, out: &mut Vec<Ent>) -> Result<(), String> {
     for _ in 0..n {
         let start = c.p;
         let ctime = (c.u32()?, c.u32()?);
@@ -224,11 +226,16 @@ fn parse_entries(c: &mut Cur<'_>, version: u32, n: usize, prev: &mut Vec<u8>, ou
         let path: Vec<u8>;
         if version == 4 {
             let strip = c.varint()? as usize;
-            if strip > prev.len() {
-                return Err(format!("v4 strip {strip} > previous path {}", prev.len()));
-            }
+            let mut p = match prev.as_ref() {
+                Some(prev) => {
+                    if strip > prev.len() {
+                        return Err(format!("v4 strip {strip} > previous path {}", prev.len()));
+                    }
+                    prev[..prev.len() - strip].to_vec()
+                }
+                None => Vec::new(),
+            };
             let suffix = c.cstr()?;
-            let mut p = prev[..prev.len() - strip].to_vec();
             p.extend_from_slice(suffix);
             path = p;
         } else {
@@ -252,7 +259,7 @@ fn parse_entries(c: &mut Cur<'_>, version: u32, n: usize, prev: &mut Vec<u8>, ou
         if namelen < 0xfff && namelen != path.len() {
             return Err(format!("name length field {namelen} != {}", path.len()));
         }
-        *prev = path.clone();
+        *prev = Some(path.clone());
         out.push(Ent {
             path,
             stage: ((f16 >> 12) & 3) as u8,
@@ -408,7 +415,7 @@ pub fn parse(data: &[u8]) -> Result<(Idx, RawExtra), String> {
     // ambiguous; instead find IEOT by scanning backwards for a consistent extension chain.
     let (ext_start, ieot) = locate_extensions(body, version, n)?;
     extra.end_of_entries = ext_start;
-    let mut prev = Vec::new();
+    let mut prev = None;
     match &ieot {
         Some(table) if version == 4 => {
             let mut total = 0usize;
@@ -416,7 +423,7 @@ pub fn parse(data: &[u8]) -> Result<(Idx, RawExtra), String> {
                 if off as usize != c.p {
                     return Err(format!("IEOT block offset {off} but cursor at {}", c.p));
                 }
-                prev.clear();
+                prev = None;
                 parse_entries(&mut c, version, cnt as usize, &mut prev, &mut idx.entries)?;
                 total += cnt as usize;
             }
@@ -433,7 +440,7 @@ pub fn parse(data: &[u8]) -> Result<(Idx, RawExtra), String> {
         {
             let mut c2 = Cur::new(body);
             c2.p = 12;
-            let mut prev2 = Vec::new();
+            let mut prev2 = None;
             let mut tmp = Vec::new();
             let mut starts_at: std::collections::BTreeMap<usize, usize> = Default::default();
             for &(_, cnt) in table {
@@ -444,7 +451,7 @@ pub fn parse(data: &[u8]) -> Result<(Idx, RawExtra), String> {
                 if starts_at.contains_key(&i) {
                     offsets.push(c2.p as u32);
                     if version == 4 {
-                        prev2.clear();
+                        prev2 = None;
                     }
                 }
                 parse_entries(&mut c2, version, 1, &mut prev2, &mut tmp)?;
@@ -547,7 +554,7 @@ fn locate_extensions(body: &[u8], version: u32, n: usize) -> Result<(usize, Opti
     if version != 4 {
         let mut c = Cur::new(body);
         c.p = 12;
-        let mut prev = Vec::new();
+        let mut prev = None;
         let mut tmp = Vec::new();
         parse_entries(&mut c, version, n, &mut prev, &mut tmp)?;
         let t = scan(c.p)?;
@@ -558,7 +565,7 @@ fn locate_extensions(body: &[u8], version: u32, n: usize) -> Result<(usize, Opti
     {
         let mut c = Cur::new(body);
         c.p = 12;
-        let mut prev = Vec::new();
+        let mut prev = None;
         let mut tmp = Vec::new();
         if parse_entries(&mut c, version, n, &mut prev, &mut tmp).is_ok() {
             if let Ok(None) = scan(c.p) {
@@ -599,7 +606,7 @@ pub fn parse_ls_files_debug(out: &[u8]) -> Result<Vec<Ent>, String> {
         }
         let stage = num(c.until(b'\t')?, 10)? as u8;
         let path = c.cstr()?.to_vec();
-        let mut expect = |c: &mut Cur<'_>, lit: &[u8]| -> Result<(), String> {
+        let expect = |c: &mut Cur<'_>, lit: &[u8]| -> Result<(), String> {
             let got = c.take(lit.len())?;
             if got != lit {
                 return Err(format!("expected {:?} got {:?}", String::from_utf8_lossy(lit), String::from_utf8_lossy(got)));
